@@ -156,7 +156,7 @@ func init() {
 	Register(Spec[sigCase]{
 		ID: "C02", Suite: "hist", CoqImports: []string{"Check.C02"},
 		CoqType: "list Check.C01.hop", CoqRun: "Check.C02.run",
-		Quick: 400, Thorough: 12000, Parallel: 8,
+		Quick: 400, Thorough: 6000, Parallel: 8,
 		Corpus: func() []sigCase {
 			// the four witnesses of c02_full_refuted (Properties/C02.v `reach`), rollback without and with text
 			var out []sigCase
